@@ -705,6 +705,36 @@ def spec_eventseriesclimate():
                 argsets={})
 
 
+def spec_eventseries():
+    from pyunicorn.eventseries import EventSeries
+
+    def make(rng):
+        n, T = rng.choice([3, 4]), 30
+        nprng = np.random.RandomState(rng.randrange(2 ** 31))
+        ev = (nprng.rand(T, n) < 0.3).astype(int)
+        ev[0], ev[-1] = 0, 0
+        for j in range(n):          # every variable has at least three events
+            ev[[3 + j, 11 + j, 20 + j], j] = 1
+        o = EventSeries(ev.copy(), taumax=rng.choice([3.0, 5.0]), lag=rng.choice([0.0, 1.0]))
+        o._verif_ev = ev
+        o._verif_kw = dict(taumax=o._EventSeries__taumax, lag=o._EventSeries__lag) \
+            if hasattr(o, "_EventSeries__taumax") else None
+        return o
+
+    def twin(o):
+        kw = o._verif_kw or {}
+        return EventSeries(o._verif_ev.copy(), **kw)
+    # no public mutator: histories are sequences of queries (C06 runs every ordered pair)
+    return dict(cls=EventSeries, make=make, twin=twin, mutators={},
+                summary=["get_event_matrix()", "event_series_analysis()",
+                         "event_series_analysis(method='ES', symmetrization='min')",
+                         "event_series_analysis(method='ES', symmetrization='antisym')",
+                         "event_series_analysis(method='ECA', symmetrization='mean')"],
+                argsets={"symmetrization": ["directed", "symmetric", "antisym", "mean", "max", "min"],
+                         "method": ["ES", "ECA"],
+                         "window_type": ["symmetric", "retarded", "advanced"]})
+
+
 def spec_crossrecurrenceplot():
     from pyunicorn.timeseries import CrossRecurrencePlot
 
@@ -834,9 +864,12 @@ SPECS = {
     "CoupledTsonisClimateNetwork": spec_coupledtsonis,
     "RainfallClimateNetwork": spec_rainfall,
     "EventSeriesClimateNetwork": spec_eventseriesclimate,
+    "EventSeries": spec_eventseries,
 }
 
-SKIP_QUERIES = {"cache_clear", "_nsi_betweenness"}
+SKIP_QUERIES = {"cache_clear", "_nsi_betweenness",
+                # surrogate-based significance tests draw random numbers
+                "event_analysis_significance", "_empirical_percentiles"}
 # spectral measures are functions of the graph only on connected graphs (C03's domain):
 # ARPACK start vectors / degenerate eigenspaces make them irreproducible otherwise
 CONNECTED_ONLY = {"eigenvector_centrality", "nsi_eigenvector_centrality", "msf_synchronizability"}
